@@ -385,6 +385,50 @@ fn flags_traits_case(rec: &mut Rec, v: &BigInt, widths: &[Option<usize>]) {
     rec.nontrivial();
 }
 
+/// formatter flags on a long value: widths are placed relative to the printed length (one below,
+/// equal, one/two above, well above), since the padding is computed from the formatter's own
+/// digit count of the prepared (chunked) number and not from the emitted text.
+fn flags_large_case(rec: &mut Rec, mag: &BigUint, neg: bool, r: u32, digits: &str, full: bool) {
+    let n = digits.len();
+    let v = if neg { -BigInt::from(mag.clone()) } else { BigInt::from(mag.clone()) };
+    let content = n + neg as usize;
+    let widths: Vec<Option<usize>> = vec![None, Some(content.saturating_sub(1)), Some(content), Some(content + 1), Some(content + 2), Some(content + 3), Some(content + 38), Some(2 * content + 5)].into_iter().filter(|w| w.map_or(true, |w| w + 2 <= u16::MAX as usize)).collect(); // Rust's formatter refuses run-time widths above u16::MAX
+    let lower = digits.to_string();
+    let upper = lower.to_ascii_uppercase();
+    let digits_for = |s: &Spec| -> (String, &'static str) { (if s.alt { upper.clone() } else { lower.clone() }, "") };
+    let iv = ref_to_i(&v);
+    let rk = format!("{},{},long:{}", if r.is_power_of_two() { "pow2" } else { "nonpow2" }, if neg { "neg" } else { "nonneg" }, fmt_class(word_len(mag), n, r));
+    let what = format!("in_radix({}), {} digits, widths around the printed length", r, n);
+    let lay_i = guard(|| if full { layouts_display(&iv.in_radix(r), &widths) } else { layouts_lean_display(&iv.in_radix(r), &widths) });
+    compare_layouts(rec, "IBig::in_radix(flags)", &rk, lay_i, &v, &digits_for, None, &what);
+    if !neg {
+        let uv = ref_to_u(mag);
+        let lay_u = guard(|| if full { layouts_display(&uv.in_radix(r), &widths) } else { layouts_lean_display(&uv.in_radix(r), &widths) });
+        compare_layouts(rec, "UBig::in_radix(flags)", &rk, lay_u, &v, &digits_for, None, &what);
+    }
+    // the radix traits go through their own entry points (Display = decimal)
+    let tys: &[(&'static str, &'static str)] = match r {
+        10 => &[("", "")],
+        2 => &[("b", "0b")],
+        8 => &[("o", "0o")],
+        16 => &[("x", "0x"), ("X", "0x")],
+        _ => &[],
+    };
+    for &(ty, prefix) in tys {
+        let dg = if ty == "X" { upper.clone() } else { lower.clone() };
+        let df = |_: &Spec| -> (String, &'static str) { (dg.clone(), prefix) };
+        let w2: Vec<Option<usize>> = widths.iter().map(|w| w.map(|w| w + prefix.len())).chain(widths.iter().cloned().skip(1)).collect();
+        let what = format!("trait {:?}, {} digits, widths around the printed length", ty, n);
+        compare_layouts(rec, "IBig::fmt(flags)", &rk, guard(|| layouts_lean_trait(&iv, &w2, ty)), &v, &df, None, &what);
+        if !neg {
+            let uv = ref_to_u(mag);
+            compare_layouts(rec, "UBig::fmt(flags)", &rk, guard(|| layouts_lean_trait(&uv, &w2, ty)), &v, &df, None, &what);
+        }
+    }
+    rec.hit(&format!("long:{}", fmt_class(word_len(mag), n, r)));
+    rec.nontrivial();
+}
+
 fn flags_in_radix_case(rec: &mut Rec, v: &BigInt, r: u32, widths: &[Option<usize>]) {
     let mag = v.magnitude();
     let lower = mag.to_str_radix(r);
@@ -1047,6 +1091,28 @@ pub fn run(ctx: &mut Ctx) {
         rec.sample(|| format!("{} in_radix({}) with 56 flag combinations x {} widths", hex(v), r, wr.len()));
     });
     ctx.require_classes("flags.in_radix", &["pad:nowidth", "pad:fits", "pad:zero", "pad:default", "pad:left", "pad:center", "pad:right"]);
+
+    // (b') flags on long values: the digit-directed universe (patterns p10 and max), widths around the printed length
+    let lcases: Vec<(u32, usize, &'static str)> = dcases.iter().cloned().filter(|&(r, n, p)| (p == "p10" || p == "max") && n > 2 * dpw(r, 64)).collect();
+    let lcr = &lcases;
+    ctx.bound("flags_large_cases", lcases.len() as u64);
+    ctx.sweep("flags.large", lcases.len() as u64, |i, rec| {
+        let (r, n, p) = lcr[i as usize];
+        let s = digit_string(r, n, p, seed);
+        let m = match BigUint::parse_bytes(s.as_bytes(), r) {
+            Some(m) if m.to_str_radix(r) == s => m,
+            _ => {
+                rec.hit("ref-selfcheck-failed");
+                return;
+            }
+        };
+        flags_large_case(rec, &m, i % 2 == 1, r, &s, n <= 40 * dpw(r, 64));
+        rec.sample(|| format!("{} digits, pattern {}, radix {}: flag combinations x 8 widths relative to the printed length", n, p, r));
+    });
+    if sweep_hits(ctx, "flags.large", "ref-selfcheck-failed") != 0 {
+        ctx.machinery("reference self-check failed inside flags.large");
+    }
+    ctx.require_classes("flags.large", &["pad:nowidth", "pad:fits", "pad:zero", "pad:default", "pad:left", "pad:center", "pad:right", "long:large:dc1", "long:large:dc2", "long:large:dc3"]);
 
     // ------------------------------------------------------------------ (c) strings
     let l: u32 = ctx.pick(5, 6);
